@@ -192,21 +192,21 @@ type pendingGet struct {
 // Recorder merges database statements (fakepg observer) and node calls into
 // one event list in observation order.
 type Recorder struct {
-	mu      sync.Mutex
-	names   *Names
-	pg      *fakepg.Server
-	Events  []Event
-	running int            // task whose goroutine is running (statements are attributed to it)
-	gets    map[int][]pendingGet
-	dead    map[int]bool // tasks whose step was killed by a crash: events suppressed
-	crashed bool
+	mu        sync.Mutex
+	names     *Names
+	pg        *fakepg.Server
+	Events    []Event
+	running   int // task whose goroutine is running (statements are attributed to it)
+	gets      map[int][]pendingGet
+	dead      map[int]bool // tasks whose step was killed by a crash: events suppressed
+	crashed   bool
 	Anomalies []string // statements outside the vocabulary, non-injected errors
-	tableOf map[int]string
-	igs     map[int]*IGSpec // tid -> spec (for intended rows)
-	srcOf   map[int]string
-	refOnly map[string]string // table -> its single content column (QRef col=1 convention)
-	cols    map[string][]string // table -> columns (after migration)
-	muted   bool
+	tableOf   map[int]string
+	igs       map[int]*IGSpec // tid -> spec (for intended rows)
+	srcOf     map[int]string
+	refOnly   map[string]string   // table -> its single content column (QRef col=1 convention)
+	cols      map[string][]string // table -> columns (after migration)
+	muted     bool
 	// SnapEvery: record the committed database after every database statement
 	SnapEvery bool
 	// SortRows (real-client mode): jrpc2's logs()/traces() attach transactions to a
